@@ -2,6 +2,7 @@ package sym
 
 import (
 	"fmt"
+	"math/big"
 	"math/bits"
 	"go/token"
 	"go/types"
@@ -127,7 +128,7 @@ func (e *Exec) valueEq(x, y Value) *smt.Term {
 		if a.Sort.K == smt.KFP {
 			return smt.Fp(smt.OFpEq, smt.Bool, a, b)
 		}
-		return smt.Eq(a, b)
+		return eqMixed(a, b)
 	case *Str:
 		return strEq(a, y.(*Str))
 	case *Pointer:
@@ -156,9 +157,26 @@ func strEq(a, b *Str) *smt.Term {
 	}
 	cs := make([]*smt.Term, len(a.B))
 	for i := range a.B {
-		cs[i] = smt.Eq(a.B[i], b.B[i])
+		cs[i] = eqMixed(a.B[i], b.B[i])
 	}
 	return smt.And(cs...)
+}
+
+// eqMixed: equality where one side may be an Int-mode value and the other a BV constant.
+func eqMixed(a, b *smt.Term) *smt.Term {
+	if a.Sort == b.Sort {
+		return smt.Eq(a, b)
+	}
+	toInt := func(t *smt.Term) *smt.Term {
+		if t.Sort.K == smt.KInt {
+			return t
+		}
+		if c, ok := t.ConstU(); ok {
+			return smt.IntBig(new(big.Int).SetUint64(c))
+		}
+		panic(inconclusive{"comparison of an Int-mode value with a symbolic bit-vector"})
+	}
+	return smt.Eq(toInt(a), toInt(b))
 }
 
 // lexLess: a < b lexicographically over byte terms.
@@ -207,6 +225,21 @@ func (e *Exec) binopStr(op token.Token, a, b *Str) Value {
 }
 
 func (e *Exec) binopTerm(op token.Token, a, b *smt.Term, xt, yt types.Type) Value {
+	if a.Sort.K == smt.KBV && b.Sort.K == smt.KInt {
+		// Int-mode value on the right: bring the constant on the left into Int mode
+		if _, ok := a.ConstU(); ok {
+			_, signed, _ := intWidth(xt)
+			if signed {
+				v, _ := a.ConstS()
+				a = smt.IntC(v)
+			} else {
+				u, _ := a.ConstU()
+				a = smt.IntBig(new(big.Int).SetUint64(u))
+			}
+		} else {
+			e.unsupported("mixed bv/int operands")
+		}
+	}
 	switch a.Sort.K {
 	case smt.KBool:
 		switch op {
@@ -432,7 +465,7 @@ func (e *Exec) convert(v Value, from, to types.Type) Value {
 				if !ok {
 					e.unsupported("string([]T) of non-byte slice")
 				}
-				if t.Sort.W != 8 {
+				if t.Sort.K != smt.KInt && t.Sort.W != 8 {
 					e.unsupported("string([]rune)")
 				}
 				s.B[i] = t
@@ -929,12 +962,51 @@ func (e *Exec) next(fr *Frame, x *ssa.Next) Value {
 		return r
 	}
 	mt := x.Iter.(*ssa.Range).X.Type().Underlying().(*types.Map)
-	if it.M == nil || it.Pos >= len(it.M.Keys) {
-		return Tuple{smt.False, zeroValue(mt.Key()), zeroValue(mt.Elem())}
+	if it.M != nil {
+		cur := e.mapRead(it.M)
+		for it.Pos < len(it.Keys) {
+			k := it.Keys[it.Pos]
+			it.Pos++
+			// entries deleted since the range started are skipped; updated values are seen
+			for i, ck := range cur.Keys {
+				if sameKey(ck, k) {
+					return Tuple{smt.True, k, cur.Vals[i]}
+				}
+			}
+		}
 	}
-	r := Tuple{smt.True, it.M.Keys[it.Pos], it.M.Vals[it.Pos]}
-	it.Pos++
-	return r
+	return Tuple{smt.False, zeroValue(mt.Key()), zeroValue(mt.Elem())}
+}
+
+func sameKey(a, b Value) bool {
+	switch x := a.(type) {
+	case *smt.Term:
+		y, ok := b.(*smt.Term)
+		return ok && smt.Same(x, y)
+	case *Str:
+		y, ok := b.(*Str)
+		if !ok || len(x.B) != len(y.B) {
+			return false
+		}
+		for i := range x.B {
+			if !smt.Same(x.B[i], y.B[i]) {
+				return false
+			}
+		}
+		return true
+	case *Agg:
+		y, ok := b.(*Agg)
+		if !ok || len(x.E) != len(y.E) {
+			return false
+		}
+		for i := range x.E {
+			if !sameKey(x.E[i], y.E[i]) {
+				return false
+			}
+		}
+		return true
+	}
+	return a == b
 }
 
 // relaxedDiv returns a fresh q constrained by a sound superset of "q is the correctly rounded
